@@ -450,6 +450,74 @@ pub fn c15_msgs(st: &Mutex<Stats>, thorough: bool, seed: u64) {
     run_prop(st, msg_case(), if thorough { 1_000_000 } else { 60_000 }, seed, check_msg, |c| format!("{:?}", c));
 }
 
+// The scoped PDU of an encrypted request is serialised into the cipher's own buffer, *behind* the padding the cipher put
+// there first - the one place where an encoder does not start from an empty buffer.  Oracle: the ciphertext has the length
+// of the reference encoding plus less than one cipher block of padding (whole blocks for DES), and the library's own decryption and decoder
+// give the scoped PDU back unchanged.  (That the cipher itself is RFC 3414 / 3826 is C11's question, decided in E1 against
+// the independent reference crypto.)
+fn check_priv_msg(c: &MsgCase) -> Result<Info, Fail> {
+    use crate::privacy::{PrivKey, SnmpPriv};
+    let c = c.clone();
+    guard(move || {
+        let texts: Vec<String> = c.oids.iter().map(|o| re::oid_text(o)).collect();
+        let mut oids = Vec::new();
+        for t in &texts {
+            oids.push(SnmpOid::try_from(t.as_str()).map_err(|e| Fail { sig: "oid-refused".into(), msg: format!("{}: {:?}", t, e) })?);
+        }
+        let (nr, mr) = if c.kind == 2 { (c.nonrep, c.maxrep) } else { (0, 0) };
+        let want_fields = (c.kind, c.request_id, nr, mr, c.oids.iter().map(|o| re::oid_content(o)).collect::<Vec<_>>());
+        let mut sc = re::tlv(0x04, &c.engine_id);
+        sc.extend(re::tlv(0x04, &[]));
+        sc.extend(ref_pdu(&c));
+        let want = re::tlv(0x30, &sc);
+        let alg: u8 = if c.msg_id & 1 == 0 { 1 } else { 2 };
+        let name = if alg == 1 { "des" } else { "aes128" };
+        let mut key = [0x5au8; 16];
+        for (i, b) in c.user.iter().take(16).enumerate() {
+            key[i] ^= *b;
+        }
+        let mk = || -> Result<PrivKey, Fail> {
+            let mut k = PrivKey::new(alg).map_err(|e| Fail { sig: "priv-key".into(), msg: format!("{:?}", e) })?;
+            k.as_localized(&key).map_err(|e| Fail { sig: "priv-key".into(), msg: format!("{:?}", e) })?;
+            Ok(k)
+        };
+        let mut k1 = mk()?;
+        let sp = ScopedPdu { engine_id: &c.engine_id, pdu: lib_pdu(&c, &oids) };
+        let (ct, salt) = match k1.encrypt(&sp, c.boots as u32, c.time as u32) {
+            Ok((ct, salt)) => (ct.to_vec(), salt.to_vec()),
+            Err(crate::error::SnmpError::OutOfBuffer) => {
+                if want.len() + 64 <= 4000 {
+                    return fail(&format!("encrypted-fitting-refused:{}", name), format!("scoped PDU of {} octets refused with OutOfBuffer", want.len()));
+                }
+                return Ok(Info { nontrivial: false, key: 0, classes: vec!["privmsg:oversize"] });
+            }
+            Err(e) => return fail(&format!("encrypted-encode-error:{}", name), format!("{:?}", e)),
+        };
+        // DES-CBC needs whole blocks; AES-CFB does not, but trailing padding of less than one block is legal and the library adds it
+        let block = if alg == 1 { 8 } else { 16 };
+        let ok_len = ct.len() >= want.len() && ct.len() - want.len() < block && (alg != 1 || ct.len() % 8 == 0);
+        if !ok_len {
+            return fail(&format!("encrypted-length:{}", name), format!("{} ciphertext of {} octets for a scoped PDU whose minimal encoding has {} (kind {})", name, ct.len(), want.len(), c.kind));
+        }
+        let mut k2 = mk()?;
+        let usm = UsmParameters { engine_id: &c.engine_id, engine_boots: c.boots, engine_time: c.time, user_name: &[], auth_params: &[], privacy_params: &salt };
+        match k2.decrypt(&ct, &usm) {
+            Ok(sp2) => {
+                if sp2.engine_id != &c.engine_id[..] || pdu_fields(&sp2.pdu) != want_fields {
+                    return fail(&format!("encrypted-roundtrip:{}", name), format!("decrypt(encrypt(scoped PDU)) != scoped PDU (kind {}, {} oids)", c.kind, c.oids.len()));
+                }
+            }
+            Err(e) => return fail(&format!("encrypted-roundtrip:{}", name), format!("the library cannot read back its own encrypted scoped PDU (kind {}, {} oids, {} octets): {:?}", c.kind, c.oids.len(), want.len(), e)),
+        }
+        let long = want.len() >= 128;
+        Ok(Info { nontrivial: long || c.kind == 2 || !c.oids.is_empty(), key: hash_of(&(want, alg)), classes: vec![if alg == 1 { "privmsg:des" } else { "privmsg:aes128" }, ["privmsg:get", "privmsg:getnext", "privmsg:getbulk"][c.kind as usize], if long { "privmsg:long_form" } else { "privmsg:short" }] })
+    })
+}
+
+pub fn c15_priv_msgs(st: &Mutex<Stats>, thorough: bool, seed: u64) {
+    run_prop(st, msg_case().prop_map(|mut c| { c.ver = 3; c }), if thorough { 400_000 } else { 30_000 }, seed, check_priv_msg, |c| format!("{:?}", c));
+}
+
 // ------------------------------------------------------------------ C16 / C02: typed values and extents
 #[derive(Debug, Clone)]
 pub struct ValCase {
